@@ -926,6 +926,7 @@ func (f *ndFunc) run() {
 	}
 
 	var record bool
+	var aliasTaint func(s *ndState, owner string, ms []ndMember, pos token.Pos)
 	var ownerCheck func(s *ndState, pos token.Pos, owner, label string)
 	var transferExpr func(s *ndState, n ast.Node)
 	handleCall := func(s *ndState, call *ast.CallExpr) {
@@ -1105,6 +1106,7 @@ func (f *ndFunc) run() {
 					for k, ms := range vals {
 						s.env[dp+k] = ndNorm(ms)
 					}
+					aliasTaint(s, dp, vals[".#"], call.Pos())
 					return
 				}
 			}
@@ -1340,6 +1342,52 @@ func (f *ndFunc) run() {
 			ownerCheck(s, ret.Pos(), owner, "exit")
 		}
 	}
+	// aliasTaint: the flag of the parameter-rooted element `owner` has been given the value ms; every other parameter
+	// of the same pointer type may be the same object (out == in is the common way of calling these operations), so
+	// that its flag has changed as well — unless the new value is that parameter's own flag, or the two are known to
+	// be distinct here.
+	aliasTaint = func(s *ndState, owner string, ms []ndMember, pos token.Pos) {
+		if !isParamRoot(owner) || owner != ndRoot(owner) {
+			return
+		}
+		var ownerObj types.Object
+		for o := range f.params {
+			if o.Name() == owner {
+				ownerObj = o
+			}
+		}
+		if ownerObj == nil {
+			return
+		}
+		if _, isPtr := ownerObj.Type().(*types.Pointer); !isPtr {
+			return
+		}
+		for o := range f.params {
+			if o == ownerObj || !types.Identical(o.Type(), ownerObj.Type()) || !hasIsNTT(o.Type()) {
+				continue
+			}
+			x := o.Name()
+			own := len(ms) > 0
+			for _, m := range ms {
+				if !(m.kind == 'S' && m.sym == x) {
+					own = false
+				}
+			}
+			if own {
+				continue
+			}
+			distinct := false
+			for _, k := range []string{x + " == " + owner, owner + " == " + x} {
+				if v, ok := s.facts[k]; ok && !v {
+					distinct = true
+				}
+			}
+			if distinct {
+				continue
+			}
+			s.env[x+".#alias"] = []ndMember{{kind: 'A', sym: f.c.Rel(pos), facts: factsString(s.facts)}}
+		}
+	}
 	rangeVars := map[*ast.Ident]bool{}
 	ast.Inspect(f.fd.Body, func(n ast.Node) bool {
 		if rs, ok := n.(*ast.RangeStmt); ok {
@@ -1374,6 +1422,7 @@ func (f *ndFunc) run() {
 						}
 					}
 					set(s, fp, stamp(s, ms))
+					aliasTaint(s, strings.TrimSuffix(fp, ".#"), ms, x.Pos())
 					continue
 				}
 				if id, ok := unparen(l).(*ast.Ident); ok {
@@ -1462,6 +1511,29 @@ func (f *ndFunc) run() {
 				assignIdent(s, x)
 				return s
 			}
+		}
+		if cond, isExpr := n.(ast.Expr); isExpr && record {
+			ast.Inspect(cond, func(y ast.Node) bool {
+				se, ok := y.(*ast.SelectorExpr)
+				if !ok || se.Sel.Name != "IsNTT" {
+					return true
+				}
+				owner, ok := f.path(se.X, 0)
+				if !ok {
+					return true
+				}
+				for _, m := range s.env[owner+".#alias"] {
+					if m.kind != 'A' || !ndFeasible(m, s.facts) {
+						continue
+					}
+					key := fmt.Sprintf("NTTDOM:%s#reread(%s.IsNTT)", f.fkey, owner)
+					if !f.seen[key] {
+						f.seen[key] = true
+						f.out = append(f.out, withProps(violOb("NTTDOM", key, f.c.Rel(se.Pos()), fmt.Sprintf("%s tests %s.IsNTT after the flag of another parameter of the same type was assigned at %s: when the operation is called in place (the two are the same object) the test reads the new flag, not the input's, and takes the other branch than with a distinct receiver", f.fkey, owner, m.sym)), flagNestProps(f.fkey)...))
+					}
+				}
+				return true
+			})
 		}
 		transferExpr(s, n)
 		return s
@@ -1710,7 +1782,7 @@ func init() {
 		Doc: "abstract interpretation of the domain (NTT / coefficient / as-the-owner's-IsNTT-flag-says) of every polynomial path over go/cfg with branch facts: no forward transform of a value already in the NTT domain, no inverse transform of a coefficient-domain value, no coefficient-domain automorphism of an NTT value or vice versa, no polynomial passed with a contradicting <x>IsNTT literal, and on every successful return the domain of an output's polynomials agrees with the IsNTT flag the function leaves on it (flag assignments, metadata copies and element copies are tracked in the same lattice)",
 		Run: func(c *core.Ctx) []ob {
 			out := scanNTTDom(c)
-			out = append(out, control(c, "NTTDOM", scanNTTDom, "fixEvaluator).TraceOne", "fixEvaluator).LeaveNTT#exit")...)
+			out = append(out, control(c, "NTTDOM", scanNTTDom, "fixEvaluator).TraceOne", "fixEvaluator).LeaveNTT#exit", "fixEvaluator).RoundTrip#reread")...)
 			out = append(out, core.Floor("NTTDOM", nil, "transform sites with a known source domain", c.Stats["nttdom_sites"], 10)...)
 			return out
 		}})
